@@ -215,10 +215,24 @@ def fixed_probes():
         P.append(("api_reset_%s" % name, False, "borrowck", ["pub fn NAME() {", "    let mut b = Bump::new();", "    let h = %s;" % expr, "    b.reset();", "    let _ = &h;", "}"], "%s: value used after reset" % name))
         P.append(("api_drop_%s" % name, False, "borrowck", ["pub fn NAME() {", "    let mut b = Bump::new();", "    let h = %s;" % expr, "    drop(b);", "    let _ = &h;", "}"], "%s: value used after the arena was dropped" % name))
         P.append(("api_ok_%s" % name, True, "borrowck", ["pub fn NAME() {", "    let mut b = Bump::new();", "    let h = %s;" % expr, "    let _ = &h;", "    drop(h);", "    b.reset();", "}"], "%s: value given up before reset" % name))
+    P.append(("share_via_splice", False, "trait", ["pub fn NAME() {", "    let b = Bump::new();", "    let mut v = bumpalo::vec![in &b; 1u8, 2, 3];", "    let sp = v.splice(0..1, vec![7u8, 8, 9, 10]);", "    std::thread::scope(|s| {", "        s.spawn(move || drop(sp));", "        let _ = b.alloc(1u8);", "    });", "}"],
+              "a Splice moved to another thread (its destructor grows the Vec in the arena) while this thread allocates"))
+    P.append(("share_via_from_utf8_error", False, "trait", ["pub fn NAME() {", "    let b = Bump::new();", "    let e = bumpalo::collections::String::from_utf8(bumpalo::vec![in &b; 255u8]).unwrap_err();", "    std::thread::scope(|s| {", "        s.spawn(move || { let mut v = e.into_bytes(); v.push(1); });", "        let _ = b.alloc(1u8);", "    });", "}"],
+              "a FromUtf8Error (which owns the Vec) moved to another thread while this thread allocates"))
+    P.append(("share_via_vec", False, "trait", ["pub fn NAME() {", "    let b = Bump::new();", "    let mut v = bumpalo::vec![in &b; 1u8];", "    std::thread::scope(|s| {", "        s.spawn(move || v.push(2));", "        let _ = b.alloc(1u8);", "    });", "}"],
+              "a Vec moved to another thread while this thread allocates"))
     # auto traits
-    send_yes = [("Bump", "Bump"), ("Bump<8>", "Bump<8>"), ("Box<u32>", "bumpalo::boxed::Box<'static, u32>"), ("IntoIter<u8>", "bumpalo::collections::vec::IntoIter<'static, u8>"), ("&mut u32", "&'static mut u32")]
+    send_yes = [("Bump", "Bump"), ("Bump<8>", "Bump<8>"), ("Box<u32>", "bumpalo::boxed::Box<'static, u32>"), ("IntoIter<u8>", "bumpalo::collections::vec::IntoIter<'static, u8>"), ("&mut u32", "&'static mut u32"),
+                ("Pin<Box<u32>>", "std::pin::Pin<bumpalo::boxed::Box<'static, u32>>"), ("Box<[u8]>", "bumpalo::boxed::Box<'static, [u8]>"), ("&mut Bump", "&'static mut Bump")]
+    # a value must not be Send if it can reach the arena (allocate, grow, free) from wherever it is: everything
+    # that holds a `&Bump` or a Vec/String, including the adaptors whose methods or destructor grow the Vec
     send_no = [("&Bump", "&'static Bump"), ("Vec<u8>", "bumpalo::collections::Vec<'static, u8>"), ("String", "bumpalo::collections::String<'static>"), ("ChunkRawIter", "bumpalo::ChunkRawIter<'static>"), ("ChunkIter", "bumpalo::ChunkIter<'static>"),
-               ("Api2Vec", "allocator_api2::vec::Vec<u8, &'static Bump>"), ("Box<Rc<u8>>", "bumpalo::boxed::Box<'static, std::rc::Rc<u8>>")]
+               ("Api2Vec", "allocator_api2::vec::Vec<u8, &'static Bump>"), ("Box<Rc<u8>>", "bumpalo::boxed::Box<'static, std::rc::Rc<u8>>"),
+               ("FromUtf8Error", "bumpalo::collections::string::FromUtf8Error<'static>"), ("vec::Splice", "bumpalo::collections::vec::Splice<'static, 'static, std::vec::IntoIter<u8>>"),
+               ("vec::DrainFilter", "bumpalo::collections::vec::DrainFilter<'static, 'static, u8, fn(&mut u8) -> bool>"), ("&mut Vec<u8>", "&'static mut bumpalo::collections::Vec<'static, u8>"),
+               ("&Vec<u8>", "&'static bumpalo::collections::Vec<'static, u8>"), ("&mut String", "&'static mut bumpalo::collections::String<'static>"),
+               ("Box<Vec<u8>>", "bumpalo::boxed::Box<'static, bumpalo::collections::Vec<'static, u8>>"), ("IntoIter<Vec<u8>>", "bumpalo::collections::vec::IntoIter<'static, bumpalo::collections::Vec<'static, u8>>"),
+               ("Api2Box", "allocator_api2::boxed::Box<u32, &'static Bump>"), ("Bump<8> ref", "&'static Bump<8>")]
     sync_yes = [("Box<u32>", "bumpalo::boxed::Box<'static, u32>"), ("IntoIter<u8>", "bumpalo::collections::vec::IntoIter<'static, u8>")]
     sync_no = [("Bump", "Bump"), ("Bump<16>", "Bump<16>"), ("Vec<u8>", "bumpalo::collections::Vec<'static, u8>"), ("String", "bumpalo::collections::String<'static>"), ("ChunkRawIter", "bumpalo::ChunkRawIter<'static>"), ("ChunkIter", "bumpalo::ChunkIter<'static>")]
     for (nm, ty) in send_yes:
